@@ -259,6 +259,8 @@ impl<X> Conv<X> for u8 { type Out = Vec<X>; }
 pub struct Fam;
 pub trait Family { type Of<X>; }
 impl Family for Fam { type Of<X> = Option<X>; }
+pub trait Named { const NAME: &'static str; }
+impl Named for u8 { const NAME: &'static str = "u8"; }
 '''
 
 
@@ -287,6 +289,12 @@ def compile_check(res, rng, tier):
         ("shared-attr-named-hex", "LowerHex", "#[lower_hex(\"{_variant}/{x:x}\")] enum S<T, U, V> { #[lower_hex(\"a\")] A { x: T }, #[lower_hex(\"b\")] B { x: T, p: core::marker::PhantomData<(U, V)> } }", "u8, NoFmt, NoFmt"),
         ("shared-attr-and-variant-attr", "Display", "#[display(\"{_variant}|{_1:?}\")] enum S<T, U, V> { #[display(\"{_0}\")] A(T, U), #[display(\"b\")] B(u8, U, core::marker::PhantomData<V>) }", "u8, u8, NoFmt"),
     ]
+    # `bound(..)` predicates given next to a variant's own format reach the where-clause also for unit and field-less variants,
+    # whose format can still use a parameter statically (seed C04-k; theorem user_bounds_always_kept)
+    for tr, an in (("Display", "display"), ("Octal", "octal")):
+        fixed.append((f"user-bound-on-fieldless-variants-{an}", tr,
+                      f"enum S<T, U, V> {{ #[{an}(\"e {{}}\", T::NAME)] #[{an}(bound(T: Named))] Empty, #[{an}(\"t {{}}\", U::NAME)] #[{an}(bound(U: Named))] Tup(), "
+                      f"#[{an}(\"b {{}}\", T::NAME)] #[{an}(bound(T: Named))] Braces {{}}, #[{an}(\"f\")] Full(core::marker::PhantomData<(T, U, V)>) }}", "u8, u8, NoFmt"))
     # implicit delegation of a single-field variant under a wrapping enum-level format, and of a newtype, for every trait:
     # the bound is the derived trait on the field's type, and a type implementing only that trait must be enough
     for tr, an in (("Display", "display"), ("LowerHex", "lower_hex"), ("UpperHex", "upper_hex"), ("Octal", "octal"), ("Binary", "binary"),
